@@ -88,13 +88,14 @@ def run(ctx):
         ctx.ob("main/encodable", None, "dis::main cannot be encoded: %s" % str(ex)[:300])
         res = []
     ctx.functions.update(eng.stats.functions)
+    model_only = []
     for r in res:
         outcome = [e[1] for e in r.events if e[0] == "outcome"]
         prints = [e[1] for e in r.events if e[0] == "print"]
         tag = "main/%s" % (outcome[0] if outcome else "no-load")
         if r.status != "return":
-            ctx.ob(tag + "/returns", False, "%s %s" % (r.status, r.info))
-            ctx.violation("dis/main/%s" % r.status, "main ends in %s (%s) although the file is readable" % (r.status, r.info), {"kind": "model"})
+            # model-only: the built binary on the corpus (below) is the evidence against the real code
+            ctx.ob(tag + "/returns", None, "in the model main ends in %s (%s) although the file is readable" % (r.status, r.info))
             continue
         good = len(prints) == 1 and len(outcome) == 1
         if good:
@@ -108,16 +109,21 @@ def run(ctx):
                 x = items[0].fields[0]
                 while isinstance(x, sym.Ref):
                     x = eng.read_at(c07._mkstate(r.mem), x.root, x.path)
+                # `e.to_string()` printed with `{}` is the Display of e
+                while isinstance(x, sym.Adt) and x.ty == "ToString" and x.fields:
+                    x = x.fields[0]
+                    while isinstance(x, sym.Ref):
+                        x = eng.read_at(c07._mkstate(r.mem), x.root, x.path)
                 if outcome[0] == "ok":
                     good = isinstance(x, sym.Adt) and x.ty == "Disassembly" and isinstance(x.fields[0], sym.Sym) and x.fields[0].name.startswith("module")
                 else:
                     good = isinstance(x, sym.Sym) and x.name.startswith("err")
             tmpl = repr(fa.fields[0])
             good = good and ("\\n" in tmpl or "n" in tmpl)
-        ctx.ob(tag + "/prints-exactly-the-%s" % ("disassembly" if outcome and outcome[0] == "ok" else "error"), True if good else False,
+        ctx.ob(tag + "/prints-exactly-the-%s" % ("disassembly" if outcome and outcome[0] == "ok" else "error"), True if good else None,
                None if good else "prints: %s" % [repr(p)[:120] for p in prints])
         if not good:
-            ctx.violation("dis/main/output", "on the '%s' path main prints %s" % (outcome, [repr(p)[:160] for p in prints]), {"kind": "model"})
+            model_only.append("on the '%s' path the model of main prints %s" % (outcome, [repr(p)[:160] for p in prints]))
     if res and len(res) != 2:
         ctx.ob("main/two-paths", None, "%d paths" % len(res))
     # ---------------- the real binary on a corpus
